@@ -28,7 +28,8 @@ func genXPathText(r *Rng, scope string, leafref bool) (string, string) {
 	fault := "none"
 	if r.Chance(3) {
 		// a prefix that is not imported where the text is written (it may well be known where it is used)
-		knownPrefixes = []string{map[string]string{"b": "y", "m": "z", "a2": "y"}[scope]}
+		// — a prefix bound in another module, or the name of a module that is imported here under another prefix
+		knownPrefixes = []string{pick(r, map[string][]string{"b": {"y", "c"}, "m": {"z", "c", "d"}, "a2": {"y", "c"}}[scope])}
 		fault = "prefix"
 	}
 	var s string
